@@ -84,6 +84,7 @@ func c17Check(text string) string {
 				rerr = fmt.Errorf("PANIC: %v", r)
 			}
 		}()
+		defer run.Track("ReadHtml", text)()
 		cur, rerr = xsel.ReadHtml(strings.NewReader(text))
 	}()
 	if rerr != nil {
